@@ -26,18 +26,28 @@ AVOGADRO = 6.02214076e23
 R_GAS = 8.314462618
 
 
+class LinregressResult(tuple):
+    """scipy's LinregressResult: unpacks to 5 values, carries 6 named fields"""
+
+    def __new__(cls, slope, intercept, rvalue, pvalue, stderr, intercept_stderr):
+        o = super().__new__(cls, (slope, intercept, rvalue, pvalue, stderr))
+        o.slope, o.intercept, o.rvalue, o.pvalue, o.stderr, o.intercept_stderr = slope, intercept, rvalue, pvalue, stderr, intercept_stderr
+        return o
+
+
 class LinregressStub:
+    """scipy.stats.linregress contract: one record per regression (per row for a batched call with axis=-1); returns fresh
+    slope / intercept / r (|r| <= 1) / p / stderr, under the exact-line lemma where asked"""
+
     def __init__(self, h, exact=True, name='lr'):
         self.h = h
         self.exact = exact
         self.name = name
         self.calls = []
 
-    def __call__(self, x, y=None, **kw):
+    def _one(self, xs, ys):
         h = self.h
         n = len(self.calls)
-        xs = list(numpy.asarray(x, dtype=object).ravel())
-        ys = list(numpy.asarray(y, dtype=object).ravel())
         slope = h.real(f'{self.name}{n}_slope')
         icpt = h.real(f'{self.name}{n}_intercept')
         r = h.real(f'{self.name}{n}_r')
@@ -49,7 +59,26 @@ class LinregressStub:
         if not h.sym:      # scipy returns numpy floats (division by zero -> inf, not ZeroDivisionError)
             slope, icpt, r = numpy.float64(slope), numpy.float64(icpt), numpy.float64(r)
         self.calls.append((xs, ys, slope, icpt, r))
-        return (slope, icpt, r, h.real(f'{self.name}{n}_p'), h.real(f'{self.name}{n}_stderr'))
+        return slope, icpt, r, h.real(f'{self.name}{n}_p'), h.real(f'{self.name}{n}_stderr'), h.real(f'{self.name}{n}_intercept_stderr')
+
+    def __call__(self, x, y=None, alternative='two-sided', axis=0, **kw):
+        if kw or alternative != 'two-sided':
+            symx.STUB_GAPS.append(f'linregress({sorted(kw)}, alternative={alternative!r})')
+        xa = numpy.asarray(x, dtype=object)
+        ya = numpy.asarray(y, dtype=object)
+        if ya.ndim <= 1:
+            return LinregressResult(*self._one(list(xa.ravel()), list(ya.ravel())))
+        # batched: regressions along the last axis, x broadcast against the rows of y
+        if axis not in (-1, ya.ndim - 1) or ya.ndim != 2:
+            symx.STUB_GAPS.append(f'linregress(axis={axis}) on {ya.ndim}-d data')
+            raise symx.simulated(ValueError('stub: unsupported batched regression'))
+        cols = [[] for _ in range(6)]
+        for i in range(ya.shape[0]):
+            xrow = xa if xa.ndim == 1 else xa[i]
+            for c, v in zip(cols, self._one(list(numpy.asarray(xrow, dtype=object).ravel()), list(ya[i]))):
+                c.append(v)
+        arrs = [isofix.column(self.h, c) for c in cols]
+        return LinregressResult(*arrs)
 
 
 def pressures(h, k):
